@@ -1208,8 +1208,13 @@ class Interp:
     def e_Dict(self, n):
         d = PyDict()
         for k, v in zip(n.keys, n.values):
-            if k is None:
-                raise Outside("dict unpacking")
+            if k is None:  # {**other, ...}
+                src = self.eval(v)
+                if not isinstance(src, PyDict) or isinstance(src, SymDict):
+                    raise Outside("dict unpacking of a non-concrete-shaped mapping")
+                for ent in src.d.values():
+                    self.dict_set(d, ent[0], ent[1])
+                continue
             self.dict_set(d, self.eval(k), self.eval(v))
         return d
 
